@@ -315,17 +315,19 @@ def oracle(case, line):
                         fail("file-range", "file %d range [%d,%d) but it touches pieces %s" % (i, r1, r2, touch[:8]), j)
                 elif r1 != r2:
                     fail("file-range", "empty file %d has a non-empty piece range" % i, j)
-                # per-file completed chunks: exact for clean files (= set pieces overlapping the file,
-                # never above the file's piece count); quirk-adjusted (see Ref.counted) for the others
-                if R.clean(i):
-                    want = sum(1 for p in R.bits_counted(i))
-                else:
-                    want = R.fexp[i]
-                if comp != want:
-                    fail("file-completed", "file %d completed_chunks %d, but %d of its pieces are set%s" % (
-                        i, comp, want, "" if R.clean(i) else " (boundary-quirk adjusted)"), j)
-                elif R.clean(i) and comp > r2 - r1:
-                    fail("file-completed", "file %d completed_chunks %d above its piece count %d" % (i, comp, r2 - r1), j)
+                # per-file completed chunks (File::completed_chunks): the number of set pieces that
+                # overlap the file, never above the file's piece count; 0 for empty files
+                want = len(R.bits_counted(i))
+                if comp != want or comp > r2 - r1:
+                    if not R.clean(i) and comp == R.fexp[i]:
+                        # exactly the code's known walk: FileList::inc_completed also increments empty
+                        # files it passes and the file that starts at the end of the completed piece
+                        bad.append(("file-completed-overcount",
+                                    "op %d (Q): file %d (offset %d, size %d, pieces [%d,%d)) has completed_chunks %d but %d of its pieces are set" % (
+                                        j, i, fo, fs, r1, r2, comp, want)))
+                    else:
+                        fail("file-completed", "file %d completed_chunks %d, but %d of its pieces are set (piece count %d)" % (
+                            i, comp, want, r2 - r1), j)
             cbytes = sum(R.piece_size(i) for i in R.bits)
             if int(f["cc"]) != len(R.bits):
                 fail("completed-count", "completed_chunks %s, expected %d" % (f["cc"], len(R.bits)), j)
